@@ -692,9 +692,31 @@ func checkC18(c *Ctx) {
 					return
 				}
 				seen := map[ssa.Value]bool{}
+				bound := map[*ssa.Parameter]ssa.Value{}
 				var walk func(v ssa.Value, depth int)
+				// the value a Helios helper returns at position idx: its return operands, with the
+				// helper's parameters standing for this call's arguments (a default handed in as an
+				// argument and returned when the key is absent)
+				walkCall := func(call *ssa.Call, idx int, depth int) {
+					callee := call.Call.StaticCallee()
+					if callee == nil || callee.Blocks == nil || !p.InScope(callee) || depth > 8 {
+						return
+					}
+					for i, prm := range callee.Params {
+						if i < len(call.Call.Args) {
+							bound[prm] = call.Call.Args[i]
+						}
+					}
+					for _, b := range callee.Blocks {
+						for _, in := range b.Instrs {
+							if ret, ok := in.(*ssa.Return); ok && idx < len(ret.Results) {
+								walk(ret.Results[idx], depth+1)
+							}
+						}
+					}
+				}
 				walk = func(v ssa.Value, depth int) {
-					if v == nil || seen[v] || depth > 8 {
+					if v == nil || seen[v] || depth > 10 {
 						return
 					}
 					seen[v] = true
@@ -709,6 +731,17 @@ func checkC18(c *Ctx) {
 						}
 					case *ssa.Convert:
 						walk(x.X, depth+1)
+					case *ssa.Parameter:
+						// inside a helper: the caller's argument
+						if arg, ok := bound[x]; ok {
+							walk(arg, depth+1)
+						}
+					case *ssa.Extract:
+						if call, ok := x.Tuple.(*ssa.Call); ok {
+							walkCall(call, x.Index, depth+1)
+						}
+					case *ssa.Call:
+						walkCall(x, 0, depth+1)
 					case *ssa.UnOp:
 						if a, ok := x.X.(*ssa.Alloc); ok && a.Referrers() != nil {
 							for _, rr := range *a.Referrers() {
